@@ -168,6 +168,9 @@ def correspondence(ctx: Ctx):
         rank = rng.randint(2, 5)
         k = rng.randint(0, 2)
         axes = rng.sample(list(range(-rank - 1, rank + 1)), k)
+        if axes and rng.random() < 0.2:          # the same axis named twice (positive and negative): torch rejects it
+            a = axes[0]
+            axes = axes + [a - rank if a >= 0 else a + rank]
         bf = rng.choice([1, 1, 1, 0])
         op = rng.choice(["sum", "mean", "amax"])
 
@@ -187,7 +190,8 @@ def correspondence(ctx: Ctx):
             # random data
             return "ok " + ("1" if ok else "0")
         yield {"line": line("persample", [rank, bf], axes), "impl": impl, "nontrivial": True,
-               "bucket": "persample/" + ("none" if not axes else "axis0" if any(a % rank == 0 for a in axes if -rank <= a < rank) else "inner")}
+               "bucket": "persample/" + ("none" if not axes else "dup" if len({a % rank for a in axes}) < len(axes) else
+                                          "axis0" if any(a % rank == 0 for a in axes if -rank <= a < rank) else "inner")}
 
 
 # ------------------------------------------------------------------------------------------------------------------
